@@ -263,7 +263,13 @@ def siter_intrinsic(I, c, args, st, n):
                 if ctl == "stop":
                     final.append((OK, v, s))
                 elif ctl == OK and name == "try_for_each":
-                    return None          # the success value's type (Ok(()) / Some(())) is not known here
+                    ty = (n.get("ty") or "") if isinstance(n, dict) else ""
+                    if ty.startswith("core::result::Result<"):
+                        final.append((OK, ("enum", "core::result::Result::Ok", (UNIT,)), s))
+                    elif ty.startswith("core::option::Option<"):
+                        final.append((OK, some(UNIT), s))
+                    else:
+                        return None      # the success value's type is not known here
                 else:
                     final.append((ctl, v, s))
             if isref:
